@@ -317,13 +317,13 @@ func (g *Gen) useVar(v *varInfo) *Expr {
 func (g *Gen) literal(sc *scope, t *Type, depth int) *Expr {
 	switch t.K {
 	case "int":
-		if g.chance(1, 16, "bigIntLit") {
-			// the widths at which an implementation might switch representation. Nothing near the end of the
-			// int range: Go folds an expression of literals as an untyped constant and rejects it when the
-			// result leaves int64 ("constant overflows"), so literal arithmetic must stay inside (generated
-			// products have a literal <= 3 on the right and nest at most four deep)
+		if g.P.Probes && g.pure == 0 && g.chance(1, 16, "bigIntLit") {
+			// the widths at which an implementation might switch representation. Always handed through the
+			// probe function: Go folds an expression of literals as an untyped constant and rejects it when
+			// the result leaves int64 ("constant overflows"), a rule of Go's constant arithmetic that a value
+			// coming out of a call is not subject to (at run time both sides wrap around alike)
 			g.label("large int literal")
-			return Int([]int64{255, 256, 65536, 2147483647, 2147483648, 4294967296, 9007199254740993}[g.intn(7, "bigInt")])
+			return g.probe(Int([]int64{255, 256, 65536, 2147483647, 2147483648, 4294967296, 9007199254740993}[g.intn(7, "bigInt")]))
 		}
 		return Int(int64(g.intn(12, "intLit")))
 	case "string":
